@@ -131,3 +131,11 @@ prop('C06', technique='contract-based deductive verification: safety obligations
                  'operand values; what the passes accept the listed generators can generate',
      assumptions=['token shapes handed to parse actions are those of the grammar rules (pyparsing)'],
      not_covered=['the pyparsing grammar and its parse actions', 'termination', 'generators not under contract'])
+prop('C20', level='other', technique='contract-style frame/effect obligations (reads/assigns analysis over the AST of the real modules), an order-independence '
+                                     'obligation for the one set iteration, plus a bounded two-run stand-in',
+     explanation='functional dependence of the output on (source, options): no function on the compile/load/run path reads an ambient source; '
+                 'process-wide mutable objects are written at import time only; no hash-order-dependent iteration reaches the output; every '
+                 'Compiler owns fresh state.  This is an effect analysis, not a proof of determinism of CPython itself.',
+     assumptions=['dict iteration is insertion ordered (CPython >= 3.7)', 'pyparsing internal caches are semantically stateless',
+                  'gzip/pickle debug section excluded by the property'],
+     not_covered=['aliasing through objects passed between compilations by a caller', 'device implementations (peripherals) are the run\'s inputs'])
